@@ -2,7 +2,7 @@
    allowed reaction; the theorems about whole runs. *)
 From H2V Require Import Base.Bytes Base.MachineInt Base.Result Gen.GenConsts Impl.ServerConn.
 From H2V Require Import Proofs.SrvBase Proofs.SrvRfcDefs Proofs.SrvRfcSpec Proofs.SrvRfcModel Proofs.SrvRfcSim Proofs.SrvRfcEff
-  Proofs.SrvRfcSend Proofs.SrvRfcStep Proofs.SrvRfcKit Proofs.SrvRfcRl Proofs.SrvRfcSl Proofs.SrvRfcKnown Proofs.SrvRfcFrame Proofs.SrvRfcBatch.
+  Proofs.SrvRfcSend Proofs.SrvRfcStep Proofs.SrvRfcKit Proofs.SrvRfcRl Proofs.SrvRfcSl Proofs.SrvRfcKnown Proofs.SrvRfcFrame Proofs.SrvRfcBatch Proofs.SrvRfcFlush.
 From Coq Require Import ZArith Lia ZifyN ZifyNat ZifyBool.
 Local Open Scope N_scope.
 
@@ -160,25 +160,6 @@ Proof.
       apply (IH _ _ _ _ (Forall2_app F (Forall2_cons _ _ (set_window_shape s _) (Forall2_nil _))) H).
 Qed.
 
-Lemma no_pending_shape l l' : Forall2 (fun a b => st_responded b = st_responded a /\ st_handlerRunning b = st_handlerRunning a /\ has_more_to_send b = has_more_to_send a) l l' ->
-  forallb (fun st => negb (st_responded st && negb (st_handlerRunning st) && has_more_to_send st)) l' =
-  forallb (fun st => negb (st_responded st && negb (st_handlerRunning st) && has_more_to_send st)) l.
-Proof. induction 1 as [|a b l l' (A & B & C) _ IH]; [reflexivity|]. cbn [forallb]. rewrite A, B, C, IH. reflexivity. Qed.
-
-Lemma bump_flags delta : forall l pre pre0 l' over,
-  Forall2 (fun a b => st_responded b = st_responded a /\ st_handlerRunning b = st_handlerRunning a /\ has_more_to_send b = has_more_to_send a) pre0 pre ->
-  bump delta pre l = (l', over) ->
-  Forall2 (fun a b => st_responded b = st_responded a /\ st_handlerRunning b = st_handlerRunning a /\ has_more_to_send b = has_more_to_send a) (pre0 ++ l) l'.
-Proof.
-  induction l as [|s t IH]; intros pre pre0 l' over F.
-  - intro H. inversion H; subst. rewrite app_nil_r. exact F.
-  - rewrite bump_cons. cbv zeta. destruct (MAXWIN <? _)%Z.
-    + intro H. inversion H; subst. apply Forall2_app; [exact F|]. constructor; [repeat split|].
-      clear. induction t; constructor; [repeat split | assumption].
-    + intro H. replace (pre0 ++ s :: t) with ((pre0 ++ [s]) ++ t) by (rewrite <- app_assoc; reflexivity).
-      eapply IH; [|exact H]. apply Forall2_app; [exact F|]. constructor; [repeat split | constructor].
-Qed.
-
 Lemma live_tuple_ph c' s2 ph ph' : live_tuple hstate c' s2 ph -> (forall id, N.odd id = true -> ph' id = ph id) -> live_tuple hstate c' s2 ph'.
 Proof.
   intros (A & B & C & D & E & F & P1 & P2) H.
@@ -189,12 +170,12 @@ Qed.
 
 (* SETTINGS and WINDOW_UPDATE on stream 0: their effect on the windows is C06's subject; here: no stream changes state *)
 Lemma G_conn_frame c s ph fr :
-  Sim c s ph -> sc_sl_done c = false -> sc_expectCont c = 0 -> no_pending hstate c = true -> sf_sid fr = 0 ->
+  Sim c s ph -> sc_sl_done c = false -> sc_expectCont c = 0 -> sf_sid fr = 0 ->
   (sf_kind fr = KSettings \/ sf_kind fr = KWinUpd /\ sf_inc fr <> 0) ->
   feed c (IIn (RFrame fr)) = fst (sl_frame dec_field enc_set_max cfg c fr) ->
   G c s ph (RFrame fr) (feed c (IIn (RFrame fr))).
 Proof.
-  intros HS Hsl E0 NP Z KK E. pose proof (S_aux _ _ _ _ HS) as [AT AH]. pose proof (A_wl _ _ AT) as Hwl.
+  intros HS Hsl E0 Z KK E. pose proof (S_aux _ _ _ _ HS) as [AT AH]. pose proof (A_wl _ _ AT) as Hwl.
   assert (BN : RS.block s = None) by (rewrite (block_of_ec hstate c s (S_blk _ _ _ _ HS)), E0; reflexivity).
   assert (NC : sf_kind fr <> KCont) by (destruct KK as [K|[K _]]; congruence).
   assert (V : RS.verdicts s (RS.Frame (abs_frame fr)) = RS.on_connection (abs_frame fr)) by (apply verdicts_conn; assumption).
@@ -217,15 +198,28 @@ Proof.
     - reflexivity.
     - cbn [abs_input input_sid filter noisy strip_late rev]. rewrite Q. cbn [rev app]. unfold classify. cbn [first_some is_goaway strip_late]. left. exact Hfc.
     - intros i rq [H|[H|H]]; try discriminate. exfalso. exact (Nd i rq H). }
-  assert (LIVE : forall c' d, feed c (IIn (RFrame fr)) = c' -> sc_sl_done c' = false -> sc_out c' = d ++ sc_out c -> filter noisy d = [] ->
-            (forall i rq, ~ In (ODispatch i rq) d) -> batch hstate c c' d [] -> G c s ph (RFrame fr) (feed c (IIn (RFrame fr)))).
-  { intros c' d EX A1 Ho Q Nd HB.
-    assert (CL : classify (sf_sid fr) (rev (filter noisy d)) = RS.Process) by (rewrite Q; apply classify_nil).
+  assert (LIVE : forall c' d D, feed c (IIn (RFrame fr)) = c' -> sc_sl_done c' = false -> sc_out c' = d ++ sc_out c ->
+            (forall o, In o d -> is_goaway o = None) -> existsb is_exit d = false ->
+            (forall i rq, ~ In (ODispatch i rq) d) -> batch hstate c c' d D -> G c s ph (RFrame fr) (feed c (IIn (RFrame fr)))).
+  { intros c' d D EX A1 Ho Qg Qe Nd HB.
+    assert (CL : classify (sf_sid fr) (rev (filter noisy d)) = RS.Process).
+    { rewrite Z. apply classify_conn.
+      - intros o H. apply in_rev in H. apply filter_In in H. apply Qg, H.
+      - rewrite existsb_rev. apply not_true_is_false. intro H. apply existsb_exists in H. destruct H as (o & H1 & H2).
+        apply filter_In in H1. assert (existsb is_exit d = true) by (apply existsb_exists; exists o; tauto). congruence. }
     apply (G_live hstate dec_field enc_field enc_set_max cfg c s ph fr c' d EX A1 Ho); rewrite ?CL; cbn [resolve]; rewrite ?Hmp.
     - left. apply allowed_table. exact Hmp.
-    - rewrite S1. apply (live_tuple_ph c' _ ph); [apply (live_tuple_batch hstate c c' s ph d [] HS HB)|].
+    - rewrite S1. apply (live_tuple_ph c' _ ph); [apply (live_tuple_batch hstate c c' s ph d D HS HB)|].
       intros id O. cbn [ph_next]. rewrite Z. destruct (id =? 0) eqn:X; [apply N.eqb_eq in X; rewrite X in O; discriminate | reflexivity].
     - intros i rq H. exfalso. exact (Nd i rq H). }
+  (* flushStreams after the change of a window *)
+  assert (FLUSH : forall cX dX, feed c (IIn (RFrame fr)) = flush_streams cX -> batch hstate c cX dX [] -> sc_sl_done cX = false ->
+            sc_out cX = dX ++ sc_out c -> (forall i rq, ~ In (ODispatch i rq) dX) -> G c s ph (RFrame fr) (feed c (IIn (RFrame fr)))).
+  { intros cX dX EX HB A1 Ho Nd.
+    pose proof (batch_gbatch hstate c cX dX AT HB A1 Ho Nd) as GB0.
+    destruct (flush_streams_gbatch hstate c cX dX Hwl GB0) as (d & D & GB).
+    apply (LIVE (flush_streams cX) d D EX (GB_sl _ _ _ _ _ _ GB) (GB_out _ _ _ _ _ _ GB) (GB_ng _ _ _ _ _ _ GB) (GB_ne _ _ _ _ _ _ GB) (GB_nd _ _ _ _ _ _ GB)).
+    apply gbatch_batch; assumption. }
   destruct KK as [K|[K I0]].
   - (* SETTINGS *)
     rewrite (sl_frame_settings c fr Z K) in E. cbv zeta in E.
@@ -238,24 +232,20 @@ Proof.
       change (sc_strms (upd_initWin c0 (signed 32 (sf_set_win fr)))) with (sc_strms c0) in E. rewrite C0s in E.
       destruct (bump delta [] (sc_strms c)) as [l' over] eqn:BP.
       pose proof (bump_shape delta (sc_strms c) [] [] l' over (Forall2_nil _) BP) as SH. cbn [app] in SH.
-      pose proof (bump_flags delta (sc_strms c) [] [] l' over (Forall2_nil _) BP) as FL. cbn [app] in FL.
       set (c2 := upd_strms (upd_initWin c0 (signed 32 (sf_set_win fr))) l') in *.
       destruct over.
       * apply (OVER c2 [] E); auto; unfold c2; sc_cbn; auto; intros i rq [].
       * cbn [fst cont] in E.
-        assert (NP2 : no_pending hstate (emit c2 OSettingsAck) = true).
-        { unfold no_pending. sc_rw. unfold c2. sc_cbn. rewrite (no_pending_shape _ _ FL). exact NP. }
-        rewrite (flush_streams_noop hstate _ NP2) in E.
-        apply (LIVE (emit c2 OSettingsAck) [OSettingsAck] E).
+        apply (FLUSH (emit c2 OSettingsAck) [OSettingsAck] E).
+        -- apply batch_rel; try exact AT; sc_rw; unfold c2; sc_cbn; unfold c0; try (destruct (sf_set_hastable fr); reflexivity). exact SH.
         -- sc_rw. unfold c2. sc_cbn. exact C0sl.
         -- rewrite sc_out_emit. unfold c2. sc_cbn. rewrite C0wl, C0sl, C0o. reflexivity.
-        -- reflexivity.
         -- intros i rq [H|[]]; discriminate.
-        -- apply batch_rel; try exact AT; sc_rw; unfold c2; sc_cbn; unfold c0; try (destruct (sf_set_hastable fr); reflexivity). exact SH.
     + cbn [fst cont] in E.
-      apply (LIVE (emit c0 OSettingsAck) [OSettingsAck] E).
+      apply (LIVE (emit c0 OSettingsAck) [OSettingsAck] [] E).
       * sc_rw. exact C0sl.
       * rewrite sc_out_emit, C0wl, C0sl, C0o. reflexivity.
+      * intros o [<-|[]]; reflexivity.
       * reflexivity.
       * intros i rq [H|[]]; discriminate.
       * apply batch_same; try exact AT; sc_rw; unfold c0; destruct (sf_set_hastable fr); reflexivity.
@@ -264,8 +254,149 @@ Proof.
     set (c1 := upd_clientWindow c (sc_clientWindow c + Z.of_N (sf_inc fr))) in *.
     destruct (MAXWIN <? sc_clientWindow c + Z.of_N (sf_inc fr))%Z.
     + apply (OVER c1 [] E); auto; intros i rq [].
-    + cbn [fst cont] in E. rewrite (flush_streams_noop hstate c1 NP) in E.
-      apply (LIVE c1 [] E); auto; try (intros i rq []); try (apply batch_same; auto).
+    + cbn [fst cont] in E.
+      apply (FLUSH c1 [] E); auto; try (intros i rq []); try (apply batch_same; auto).
+Qed.
+
+(* ---------- inputs that are not frames ---------- *)
+
+Lemma Sim_live c s ph : Sim c s ph -> live_tuple hstate c s ph.
+Proof.
+  intros HS. split; [exact (S_aux _ _ _ _ HS)|]. split; [intros id O; apply rel_rel1, (S_str _ _ _ _ HS id O)|].
+  split; [exact (S_blk _ _ _ _ HS)|]. split; [exact (S_ga _ _ _ _ HS)|]. split; [exact (S_hi _ _ _ _ HS)|].
+  split; [exact (S_cont _ _ _ _ HS)|]. split; [exact (S_ph _ _ _ _ HS) | exact (S_new _ _ _ _ HS)].
+Qed.
+
+Lemma G_other_input c s ph i : Sim c s ph -> sc_sl_done c = false -> (forall fr, i <> RFrame fr) ->
+  G c s ph i (feed c (IIn i)).
+Proof.
+  intros HS Hsl NF. pose proof (S_aux _ _ _ _ HS) as [AT AH].
+  pose proof (A_rl _ _ AT) as Hrl. pose proof (A_wl _ _ AT) as Hwl. pose proof (A_q _ _ AT) as Hq.
+  pose proof (block_of_ec hstate c s (S_blk _ _ _ _ HS)) as B.
+  destruct i as [fr| |[code|]|]; [exfalso; eapply NF; reflexivity | | | |].
+  - (* a frame of unknown type *)
+    destruct (sc_expectCont c =? 0) eqn:E0.
+    + assert (F : feed c (IIn RUnknownType) = c).
+      { unfold SrvRfcDefs.feed. rewrite step_EvRL, Hrl. cbn [rl_step]. rewrite E0. cbn [negb]. apply sl_after_stay; assumption. }
+      rewrite F. exists []. split; [reflexivity|]. cbn [abs_input input_sid filter rev]. rewrite classify_nil.
+      assert (MP : RS.may_process s RS.UnknownType = false) by (unfold RS.may_process; cbn [RS.verdicts]; rewrite B; reflexivity).
+      cbn [resolve]. rewrite MP. split; [|split].
+      * left. apply allowed_table. cbn [RS.verdicts]. rewrite B. reflexivity.
+      * rewrite Hsl. cbn [RS.spec_next]. unfold after_outs. cbn. apply Sim_live, HS.
+      * intros sid rq [].
+    + apply (G_rl_goaway hstate dec_field enc_field enc_set_max cfg c s ph RUnknownType c_ProtocolError 1 Hsl Hwl).
+      * eapply feed_rl_exit; eauto; sc_rw; try assumption. cbn [rl_step]. rewrite E0. reflexivity.
+      * left. apply allowed_table. cbn [abs_input RS.verdicts]. rewrite B. reflexivity.
+  - (* a malformed frame for which the reader names an error code *)
+    apply (G_rl_goaway hstate dec_field enc_field enc_set_max cfg c s ph (RBadFrame (Some code)) code 1 Hsl Hwl).
+    + eapply feed_rl_exit; eauto; sc_rw; try assumption; try reflexivity.
+    + left. apply allowed_table. cbn [abs_input RS.verdicts existsb RS.admits]. rewrite N.eqb_refl. reflexivity.
+  - (* a malformed frame: the connection is closed *)
+    apply (G_rl_close hstate dec_field enc_field enc_set_max cfg c s ph (RBadFrame None) 3 Hsl).
+    + eapply feed_rl_exit; eauto; try reflexivity.
+    + left. apply allowed_table. reflexivity.
+  - (* the peer has gone *)
+    apply (G_rl_close hstate dec_field enc_field enc_set_max cfg c s ph RLEof 0 Hsl).
+    + eapply feed_rl_exit; eauto; try reflexivity.
+    + left. apply allowed_table. reflexivity.
+Qed.
+
+(* ---------- time and shutdown ---------- *)
+
+Lemma G_local c s ph l : Sim c s ph -> sc_sl_done c = false -> l <> LTimer -> Gloc hstate c s ph (feed c (ILocal l)).
+Proof.
+  intros HS Hsl NT. pose proof (S_aux _ _ _ _ HS) as [AT AH]. pose proof (A_wl _ _ AT) as Hwl.
+  destruct l as [t| | |]; [| congruence | |]; unfold SrvRfcDefs.feed; cbn [local_event].
+  - (* the clock *)
+    rewrite step_EvClock. destruct (sc_now c <? t)%Z.
+    + apply (Gloc_batch hstate c s ph (upd_now c t) [] [] HS Hsl eq_refl); [apply batch_same; auto | intros i rq []].
+    + apply (Gloc_batch hstate c s ph c [] [] HS Hsl eq_refl); [apply batch_same; auto | intros i rq []].
+  - (* idle: GOAWAY(NO_ERROR) *)
+    rewrite step_EvIdle. set (c' := upd_closer (write_goaway c 0 c_NoError) true).
+    exists [OGoAway (sc_lastID c) c_NoError]. split; [unfold c'; sc_cbn; rewrite sc_out_write_goaway, Hwl, Hsl; reflexivity|].
+    assert (Sl' : sc_sl_done c' = false) by (unfold c'; sc_cbn; sc_rw; exact Hsl).
+    rewrite Sl'. split; [|intros i rq [H|[]]; discriminate].
+    assert (AO : after_outs s [OGoAway (sc_lastID c) c_NoError] = RS.spec_sent s RS.SentGoAway) by reflexivity. rewrite AO.
+    assert (ST : static hstate c c') by (unfold c'; repeat split; sc_cbn; sc_rw; reflexivity).
+    assert (EC : sc_expectCont c' = sc_expectCont c) by (unfold c'; sc_cbn; sc_rw; reflexivity).
+    assert (DI : sc_discardID c' = sc_discardID c) by (unfold c'; sc_cbn; sc_rw; reflexivity).
+    apply (live_tuple_static hstate c c' s _ ph ph HS ST).
+    + destruct AH as [F1 F2 F3 F4]. pose proof ST as (A1 & _ & _ & _ & A5 & _). constructor.
+      * intros st H. rewrite A1 in H. rewrite EC. apply F1, H.
+      * intros st Hne H. rewrite EC in Hne, H. rewrite (tbl_static hstate _ _ _ ST) in H. apply (F2 st Hne H).
+      * rewrite EC. exact F3.
+      * rewrite DI, A5, (tbl_static hstate _ _ _ ST). exact F4.
+    + intro id. rewrite st_of_spec_sent by exact (S_wf _ _ _ _ HS). reflexivity.
+    + reflexivity.
+    + unfold R_block. rewrite block_spec_sent, EC. exact (S_blk _ _ _ _ HS).
+    + unfold c'. sc_cbn. rewrite sc_closing_write_goaway. reflexivity.
+    + rewrite EC, DI, (tbl_static hstate _ _ _ ST). intros Hne T. destruct (S_cont _ _ _ _ HS Hne T) as [X|X]; [left; exact X | right; exact X].
+    + reflexivity.
+    + unfold c'. sc_cbn. rewrite sc_closing_write_goaway. discriminate.
+  - (* the closer channel *)
+    rewrite step_EvCloser. rewrite Hsl. cbn [negb]. rewrite andb_true_r. destruct (sc_closer c).
+    + apply (Gloc_over hstate c s ph _ [OExit 1 0]); try reflexivity. intros i rq [H|[]]; discriminate.
+    + apply (Gloc_batch hstate c s ph c [] [] HS Hsl eq_refl); [apply batch_same; auto | intros i rq []].
+Qed.
+
+(* ---------- once the stream loop has ended ---------- *)
+
+Definition not_dispatch (o : outev) : Prop := forall sid rq, o <> ODispatch sid rq.
+
+Inductive nd : list outev -> list outev -> Prop :=
+| nd_refl l : nd l l
+| nd_cons o l l' : nd l l' -> not_dispatch o -> nd l (o :: l').
+
+Lemma nd_ext l l' : nd l l' -> exists d, l' = d ++ l /\ forall sid rq, ~ In (ODispatch sid rq) d.
+Proof.
+  induction 1 as [l|o l l' _ (d & -> & Hd) No]; [exists []; split; [reflexivity | intros sid rq []]|].
+  exists (o :: d). split; [reflexivity|]. intros sid rq [H|H]; [exact (No sid rq H) | exact (Hd sid rq H)].
+Qed.
+
+Lemma rl_step_over c i : sc_sl_done c = true ->
+  sc_sl_done (rl_step cfg c i) = true /\ nd (sc_out c) (sc_out (rl_step cfg c i)).
+Proof.
+  intro Hsl. unfold rl_step, forward, rl_exit, write_error, write_goaway, emit, note, check_frame_with_stream.
+  destruct i as [fr| |[code|]|];
+    repeat first [ rewrite Hsl | progress sc_cbn
+                 | match goal with
+                   | |- context [if ?b then _ else _] => destruct b
+                   | |- context [match sf_kind ?f with _ => _ end] => destruct (sf_kind f)
+                   end ];
+    (split; [reflexivity|]); repeat (first [apply nd_refl | apply nd_cons; [|intros ? ?; discriminate]]).
+Qed.
+
+Lemma over_step c s ph it : wf s -> sc_sl_done c = true -> RS.dead s = true -> step_goal hstate dec_field enc_field enc_set_max cfg c s ph it.
+Proof.
+  intros W Hsl Hd.
+  assert (K : sc_sl_done (feed c it) = true /\ nd (sc_out c) (sc_out (feed c it))).
+  { unfold SrvRfcDefs.feed. destruct it as [i|sid r|l].
+    - rewrite step_EvRL. destruct (sc_rl_done c).
+      + rewrite step_EvSL, Hsl. split; [exact Hsl | apply nd_refl].
+      + destruct (rl_step_over c i Hsl) as [A B]. rewrite step_EvSL, A. split; [exact A | exact B].
+    - rewrite step_EvDone, Hsl. split; [exact Hsl | apply nd_refl].
+    - destruct l as [t| | |]; cbn [local_event].
+      + rewrite step_EvClock. destruct (_ <? _)%Z; (split; [exact Hsl | apply nd_refl]).
+      + rewrite step_EvTimer, Hsl. split; [exact Hsl | apply nd_refl].
+      + rewrite step_EvIdle. unfold write_goaway, emit. sc_cbn. rewrite Hsl.
+        destruct (sc_wl_dead c); sc_cbn; (split; [exact Hsl|]); [apply nd_refl | apply nd_cons; [apply nd_refl | intros ? ?; discriminate]].
+      + rewrite step_EvCloser, Hsl. cbn [negb]. rewrite andb_false_r. split; [exact Hsl | apply nd_refl]. }
+  destruct K as [Hsl' Hnd]. destruct (nd_ext _ _ Hnd) as (d & Ho & Hnd').
+  pose proof (new_out_ext hstate _ _ _ Ho) as NO.
+  unfold step_goal. cbv zeta. split; [intro X; congruence|]. split.
+  - unfold SrvRfcSim.Post. rewrite Hsl'.
+    unfold SrvRfcDefs.spec_feed. cbv zeta.
+    set (s1 := match it with IIn i => RS.spec_next s (abs_input i) _ | _ => s end).
+    assert (W1 : wf s1 /\ RS.dead s1 = true).
+    { unfold s1. destruct it as [i| |]; [|auto|auto]. split; [apply wf_spec_next, W|].
+      destruct (abs_input i) as [f| |code|]; [rewrite dead_spec_next, Hd; reflexivity | | |];
+        cbn [RS.spec_next]; match goal with |- context [resolve ?a ?b ?r] => destruct (resolve a b r) end; cbn; auto. }
+    destruct W1 as [W1 D1].
+    set (s2 := fold_left RS.spec_sent _ s1).
+    assert (W2 : wf s2 /\ RS.dead s2 = true) by (unfold s2; split; [apply wf_fold_sent, W1 | rewrite dead_fold_sent, D1; reflexivity]).
+    destruct W2 as [W2 D2]. destruct (sync_forget_props hstate (feed c it) s2 W2) as (W3 & _ & _ & _ & D3 & _).
+    split; [exact W3 | rewrite D3; exact D2].
+  - split; [|exists d; exact Ho]. intros sid rq H. exfalso. rewrite NO in H. apply in_rev in H. exact (Hnd' sid rq H).
 Qed.
 
 End Main.
